@@ -1,5 +1,7 @@
 import UralModel.Lemmas.CanonRoundTrip
 import UralModel.Lemmas.QuoteIdem
+import UralModel.Lemmas.QuoteRoundTrip
+import UralModel.Lemmas.Normpath
 /-!
 # The printed result of `canonicalize_url` is a fixed point of its cleaning pass
 
@@ -262,10 +264,25 @@ theorem upTok_assemble (its : List Item) (acc : List UInt8) (hits : ∀ it ∈ i
       simp only [assemble]
       exact ih _ hrest
 
-theorem tokens_safelyUnquote (U : List UInt8) (hU : (0x25 : UInt8) ∈ U) (s : Str) :
-    tokens (safelyUnquote U s) = unquoteToks U (tokens s) := by
-  have hout := outTok_unquoteToks U (tokens s) (wf_tokens s)
-  exact tokens_render_of_canon _ (fun t ht => canon_of_outTok hU (wf_tokens s) (hout t ht))
+theorem upTok_escapeRaw {ts : List Tok} (h : ∀ t ∈ ts, UpTok t) : ∀ t ∈ escapeRaw ts, UpTok t := by
+  intro t ht
+  simp only [escapeRaw, List.mem_flatMap] at ht
+  obtain ⟨t0, ht0, ht⟩ := ht
+  cases t0 with
+  | raw c =>
+    simp only [escTok] at ht
+    split at ht
+    · simp only [List.mem_map] at ht
+      obtain ⟨b, _, rfl⟩ := ht
+      exact upTok_escOfByte b
+    · simp only [List.mem_singleton] at ht
+      subst ht; rfl
+  | esc h1 h2 =>
+    simp only [escTok, List.mem_singleton] at ht
+    subst ht; exact h _ ht0
+  | stray =>
+    simp only [escTok, List.mem_singleton] at ht
+    subst ht; rfl
 
 /-- the safe unquoters keep escapes upper-case -/
 theorem upperEsc_safelyUnquote (U : List UInt8) (hU : (0x25 : UInt8) ∈ U) {s : Str}
@@ -277,7 +294,7 @@ theorem upperEsc_safelyUnquote (U : List UInt8) (hU : (0x25 : UInt8) ∈ U) {s :
   intro it hit
   simp only [List.mem_map] at hit
   obtain ⟨t0, ht0, rfl⟩ := hit
-  exact itemUp_itemOf U t0 (h t0 ht0)
+  exact itemUp_itemOf U t0 (upTok_escapeRaw h t0 ht0)
 
 /-! ### the components the parser returns have upper-case escapes -/
 
@@ -589,6 +606,135 @@ theorem printed_eq
       · exact Or.inr ⟨by rw [hscheme]; exact hsne, h1⟩
   rw [hb, hscheme]
   simp [schemePart, hsne]
+
+end
+
+theorem canonParts_netloc (puny : Str → Str) (quoted sf : Bool) (p : Parsed) :
+    (canonParts puny quoted sf p).netloc =
+      unsplitNetloc (canonComps puny quoted sf p).user (canonComps puny quoted sf p).pass
+        (canonComps puny quoted sf p).host (canonComps puny quoted sf p).port := rfl
+theorem canonParts_path (puny : Str → Str) (quoted sf : Bool) (p : Parsed) :
+    (canonParts puny quoted sf p).path = (canonComps puny quoted sf p).path := rfl
+theorem canonParts_query (puny : Str → Str) (quoted sf : Bool) (p : Parsed) :
+    (canonParts puny quoted sf p).query = canonQuery quoted p.query := rfl
+theorem canonParts_fragment (puny : Str → Str) (quoted sf : Bool) (p : Parsed) :
+    (canonParts puny quoted sf p).fragment =
+      canonOpt quoted unquoteFragment (if sf then none else some p.fragment) := rfl
+theorem canonComps_user (puny : Str → Str) (quoted sf : Bool) (p : Parsed) :
+    (canonComps puny quoted sf p).user = canonOpt quoted unquoteAuthItem p.username := rfl
+theorem canonComps_pass (puny : Str → Str) (quoted sf : Bool) (p : Parsed) :
+    (canonComps puny quoted sf p).pass = canonOpt quoted unquoteAuthItem p.password := rfl
+
+theorem tail_sepHead (q f : Str) :
+    queryPart q ++ fragPart f = [] ∨ ∃ d b', queryPart q ++ fragPart f = d :: b' ∧ Sep d := by
+  cases hT : queryPart q ++ fragPart f with
+  | nil => exact Or.inl rfl
+  | cons d b' =>
+    right
+    refine ⟨d, b', rfl, ?_⟩
+    rcases tail_head q f d (by rw [hT]; rfl) with rfl | rfl <;> exact ⟨by decide, by decide⟩
+
+theorem upperEsc_tail {q f : Str} (hq : UpperEsc q) (hf : UpperEsc f) :
+    UpperEsc (queryPart q ++ fragPart f) := by
+  have hfp : UpperEsc (fragPart f) := by
+    unfold fragPart; split
+    · exact (upperEsc_cons_sep ⟨by decide, by decide⟩ _).2 hf
+    · exact upperEsc_nil
+  have hfs : fragPart f = [] ∨ ∃ d b', fragPart f = d :: b' ∧ Sep d := by
+    unfold fragPart; split
+    · exact Or.inr ⟨_, _, rfl, ⟨by decide, by decide⟩⟩
+    · exact Or.inl rfl
+  unfold queryPart
+  split
+  · rw [List.cons_append]
+    exact (upperEsc_cons_sep ⟨by decide, by decide⟩ _).2 (upperEsc_append_of_sepHead hq hfp hfs)
+  · simpa using hfp
+
+theorem upperEsc_netloc {U P H : Str} {port : Option Nat} (hU : UpperEsc U) (hP : UpperEsc P)
+    (hH : '%' ∉ H) : UpperEsc (authPart U P ++ (hostPart H ++ portPart port)) := by
+  have hX : UpperEsc (hostPart H ++ portPart port) := by
+    apply upperEsc_of_no_pct
+    intro hm
+    rcases List.mem_append.1 hm with h | h
+    · rcases mem_hostPart h with h | h | h
+      · exact hH h
+      · cases h
+      · cases h
+    · rcases mem_portPart h with h | h
+      · cases h
+      · revert h; decide
+  have sc : Sep ':' := ⟨by decide, by decide⟩
+  have sa : Sep '@' := ⟨by decide, by decide⟩
+  unfold authPart
+  split
+  · have e : U ++ ':' :: P ++ ['@'] ++ (hostPart H ++ portPart port) =
+        U ++ ':' :: (P ++ '@' :: (hostPart H ++ portPart port)) := by simp
+    rw [e]
+    exact (upperEsc_append_sep sc _ _).2 ⟨hU, (upperEsc_append_sep sa _ _).2 ⟨hP, hX⟩⟩
+  · split
+    · have e : U ++ ['@'] ++ (hostPart H ++ portPart port) =
+          U ++ '@' :: (hostPart H ++ portPart port) := by simp
+      rw [e]
+      exact (upperEsc_append_sep sa _ _).2 ⟨hU, hX⟩
+    · simpa using hX
+
+section
+variable {puny : Str → Str} (hpc : PunyClean puny) (sf : Bool) {S rest : Str} {p : Parsed}
+  (h : FromParse S rest p)
+include hpc h
+
+theorem host_no_pct (hpct : ∀ h0, p.hostname = some h0 → '%' ∉ h0) :
+    '%' ∉ strOf (canonComps puny false sf p).host := by
+  intro hm
+  obtain ⟨h0, _, _, hh, hch⟩ := host_mem hpc false sf h hm
+  exact hpct h0 hh (canonHost_bad puny hpc h0 (by decide) hch)
+
+/-- the printed URL has upper-case escapes -/
+theorem upperEsc_printed_body (hup : UpFacts p) (hpath : PathIdem)
+    (hpct : ∀ h0, p.hostname = some h0 → '%' ∉ h0) :
+    UpperEsc ((canonParts puny false sf p).netloc ++
+      ((canonParts puny false sf p).path ++
+        (queryPart (canonParts puny false sf p).query ++
+          fragPart ((canonParts puny false sf p).fragment.getD [])))) := by
+  have hU : (0x25 : UInt8) ∈ Gen.Quote.unsafeForAuthItem := by decide
+  have hF : (0x25 : UInt8) ∈ Gen.Quote.unsafeForFragment := by decide
+  have hPa : (0x25 : UInt8) ∈ Gen.Quote.unsafeForPath := by decide
+  -- pieces
+  have hnl : UpperEsc (canonParts puny false sf p).netloc := by
+    rw [canonParts_netloc, unsplitNetloc_eq, canonComps_user, canonComps_pass]
+    exact upperEsc_netloc (upperEsc_canonOpt _ hU hup.user).1 (upperEsc_canonOpt _ hU hup.pass).1
+      (host_no_pct hpc sf h hpct)
+  have hpa : UpperEsc (canonParts puny false sf p).path := by
+    rw [canonParts_path, canonComps_path_eq hpc false sf h]
+    simp only [finishPath, Bool.false_eq_true, if_false]
+    exact upperEsc_safelyUnquote _ hPa (hpath.upper _ _ h.split.path_abs hup.path)
+  have hq : UpperEsc (canonParts puny false sf p).query := by
+    rw [canonParts_query]; exact upperEsc_canonQuery hup.query
+  have hf : UpperEsc ((canonParts puny false sf p).fragment.getD []) := by
+    rw [canonParts_fragment]
+    apply (upperEsc_canonOpt _ hF _).2
+    intro u hu
+    cases sf
+    · simp only [Bool.false_eq_true, if_false, Option.some.injEq] at hu
+      subst hu; exact hup.fragment
+    · simp at hu
+  have hT := upperEsc_tail hq hf
+  have hshape := finishPath_shape false p.path
+    (!p.query.isEmpty || truthy (if sf then none else some p.fragment)) h.split.path_abs
+  have hpT : UpperEsc ((canonParts puny false sf p).path ++
+      (queryPart (canonParts puny false sf p).query ++
+        fragPart ((canonParts puny false sf p).fragment.getD []))) :=
+    upperEsc_append_of_sepHead hpa hT (tail_sepHead _ _)
+  apply upperEsc_append_of_sepHead hnl hpT
+  -- the path + tail is empty or starts with a delimiter
+  have hpe : (canonParts puny false sf p).path =
+      finishPath false (canonPath p.path
+        (!p.query.isEmpty || truthy (if sf then none else some p.fragment))) := by
+    rw [canonParts_path]; exact canonComps_path_eq hpc false sf h
+  rcases hshape.1 with h0 | ⟨r, hr⟩
+  · rw [hpe, h0, List.nil_append]; exact tail_sepHead _ _
+  · rw [hpe, hr]
+    exact Or.inr ⟨'/', _, rfl, ⟨by decide, by decide⟩⟩
 
 end
 
